@@ -18,12 +18,14 @@ using namespace vp;
 
 static const char* const kPool[] = {"com.vp.A", "com.vp.B"};
 
-struct Mon { int c; std::vector<MatchRule> filter; };   // empty filter = everything
+struct Mon { int c; std::vector<MatchRule> filter; bool unspec = false; };   // empty filter = everything; unspec: no verdict any more (see below)
 struct Written { Msg m; int c; std::string sender; };      // a frame a client wrote, with the sender the bus must stamp on the captured copy
 
 static bool filter_matches(const Mon& mon, const Msg& stamped, const BusModel& model, int sender) {
   if (mon.filter.empty()) return true;
-  MatchCtx cx = model.ctx_for(sender, -1);
+  // the addressed recipient (if the destination has an owner) decides destination= keys; otherwise the destination text does
+  int addressed = stamped.has(F_DESTINATION) ? model.primary(stamped.fstr(F_DESTINATION)) : -1;
+  MatchCtx cx = model.ctx_for(sender, addressed);
   for (auto& r : mon.filter) { MatchRule r2 = r; r2.eavesdrop = true; if (rule_matches(r2, stamped, cx)) return true; }
   return false;
 }
@@ -61,6 +63,7 @@ static std::pair<long, int> run_history(const uint8_t* data, size_t size, bool c
     h.compare_all(out, caller, serial, what);
     for (auto& mon : mons) {
       if (!h.open(mon.c)) continue;
+      if (mon.unspec) { auto g = h.bus.drain(mon.c); Bus::free_frames(g); continue; }
       std::vector<Exp> want;
       for (auto& w : written) { Msg st = h.model.stamp(w.m, w.c); st.set_str(F_SENDER, 's', w.sender); if (filter_matches(mon, st, h.model, w.c)) want.push_back(exp_forward(st)); }
       for (auto& e : h.model.emitted) { if (mon.filter.empty() || filter_matches(mon, exp_as_msg(e), h.model, -1)) want.push_back(e); }
@@ -91,6 +94,11 @@ static std::pair<long, int> run_history(const uint8_t* data, size_t size, bool c
         h.bus.close_client(c);
         Out o; std::vector<Written> none;
         for (size_t i = 0; i < mons.size(); i++) if (mons[i].c == c) { mons.erase(mons.begin() + i); break; }
+        // [U] When a *monitor* connection goes away the bus also drops other monitors' filter rules that name its unique name in
+        // sender= / destination= ("this service name will never be recycled", bus/signals.c rule_list_remove_by_connection), as it
+        // does for ordinary match rules (C07 treats that as unspecified too).  A monitor whose filter named the departed name gets
+        // no verdict from here on.
+        for (auto& mon : mons) for (auto& r : mon.filter) if ((r.has_dest && r.dest == h.uniq(c)) || (r.has_sender && r.sender == h.uniq(c))) { mon.unspec = true; if (count) stats_class("monitor-filter-names-departed-monitor"); }
         // [U] whether other monitors get a copy of what the misbehaving monitor wrote: drain them without verdict
         for (auto& mon : mons) if (h.open(mon.c)) { auto g = h.bus.drain(mon.c); Bus::free_frames(g); }
         settle(o, none, -1, 0, "after a monitor sent a message");
@@ -145,8 +153,14 @@ static std::pair<long, int> run_history(const uint8_t* data, size_t size, bool c
       settle(out, written, -1, 0, "after a close");
     } else if (k <= 11 && mons.size() < 2) {
       // BecomeMonitor: empty filter, selective filter, or an invalid rule (must fail and change nothing)
-      int fk = (int)pick(f, 5);
+      int fk = (int)pick(f, 9);
       std::vector<std::string> texts;
+      // destination= filters take unique names (a well-known name there is [U] in the rule table): another client's name, which may
+      // lose its owner later, and the monitor's own former name, which has no owner from now on
+      if (fk == 5) texts = {"destination='" + h.uniq((int)pick(f, nclients)) + "'"};
+      else if (fk == 6) texts = {"destination='" + h.uniq(c) + "'"};
+      else if (fk == 7) texts = {"destination='" + h.uniq((int)pick(f, nclients)) + "'", "sender='com.vp.B',type='signal'"};
+      else if (fk == 8) texts = {"path='/t'", "type='method_return'"};
       if (fk == 1) texts = {"type='signal'"};
       else if (fk == 2) texts = {"interface='com.vp.T'", "type='error'"};
       else if (fk == 3) texts = {"member='NameOwnerChanged'"};
